@@ -132,8 +132,9 @@ static void apis_len(size_t L, int A)
       CALL("sodium_unpad(exact)", L, bs, A); if (L >= bs) { size_t ul; m = xin(L, A); sodium_unpad(&ul, m, L, bs); m[L - 1] = 0; sodium_unpad(&ul, m, L, bs); xfree(); } }
     CALL("randombytes_buf", L, 0, A); o = xout(L, A); randombytes_buf(o, L); randombytes_buf_deterministic(o, L, K32); xfree();
     if (L <= 64) { CALL("crypto_kdf_derive_from_key", L, 0, A); o = xout(L, A); crypto_kdf_derive_from_key(o, L, 7, "ctxctxct", K32); xfree(); }
-    if (L <= 200) { CALL("crypto_core_ed25519_from_string", L, 0, A); { char *ctx; m = xin(L, A); o = xout(32, A2); memset(m, 'x', L); ctx = xstr((const char *) m, L);
-        crypto_core_ed25519_from_string(o, ctx, m, L, 2); crypto_core_ed25519_from_string_ro(o, ctx, m, L, 1); crypto_core_ristretto255_from_string(o, L % 2 ? ctx : NULL, m, L, 2); crypto_core_ristretto255_from_string_ro(o, ctx, m, L, 1); xfree(); } }
+    if (L <= 400) { CALL("crypto_core_ed25519_from_string", L, 0, A);      /* context (a C string) of every length incl. the oversize range > 255, both hashes, all four functions */ { char *ctx; m = xin(L, A); o = xout(32, A2); memset(m, 'x', L); ctx = xstr((const char *) m, L);
+        crypto_core_ed25519_from_string(o, ctx, m, L, 2); crypto_core_ed25519_from_string_ro(o, ctx, m, L, 1); crypto_core_ristretto255_from_string(o, L % 2 ? ctx : NULL, m, L, 2); crypto_core_ristretto255_from_string_ro(o, ctx, m, L, 1);
+        crypto_core_ed25519_from_string(o, ctx, m, L / 3, 1); crypto_core_ed25519_from_string_ro(o, ctx, m, L ? 1 : 0, 2); crypto_core_ristretto255_from_string(o, ctx, m, L, 1); crypto_core_ristretto255_from_string_ro(o, ctx, m, 0, 2); xfree(); } }
     if (L <= 300 && (L < 40 || L % 16 == 0)) { CALL("crypto_pwhash(pwlen,outlen)", L, 0, A); m = xin(L, A); o = xout(16 + L, A2); crypto_pwhash(o, 16 + L, (const char *) m, L, N24, 1, 8192, crypto_pwhash_ALG_ARGON2ID13);
         crypto_pwhash_scryptsalsa208sha256_ll(m, L, N24, L % 24, 4, 1, 1, o, 16 + L); xfree(); }
 }
